@@ -61,6 +61,7 @@ type HarnessResult struct {
 	EngineErrors   []string            `json:"engine_errors"`
 	UnwindFailures int                 `json:"unwinding_failures"`
 	MapOrderPaths  int                 `json:"map_order_dependent_paths"`
+	UnknownBranches int                `json:"unknown_branches"`
 }
 
 func newMachine(env *Env, solver *Solver, cfg *RunConfig, vec []int64) *Machine {
@@ -261,6 +262,7 @@ func Explore(env *Env, harnessName string, cfg *ExploreConfig) *HarnessResult {
 				if res.Nontrivial {
 					hr.Nontrivial++
 				}
+				hr.UnknownBranches += res.UnknownBranches
 				if res.MapOrderDependent {
 					hr.MapOrderPaths++
 				}
